@@ -43,17 +43,38 @@ poisson_cv: no within-fold product, observation / channel order invariance,   C0
                                                                                 last-fold-only estimator still satisfies, kept
                                                                                 apart so that it stays a live regression guard
 
-Findings on the current tree (C02_findings.md): the default fold descriptor inherits the dtype of the condition labels
-(F2a 1-character str labels with >= 11 repetitions, F2b bool labels, F2c str labels with >= 11 repetitions and per-fold
-precisions); each has its own input_class in the domain C02/default-folds-many-repetitions.
+Dimension sweeps (domains 8-14; the same clauses on inputs the domains 1-7 keep fixed; every expected value is again `_spec`)
+---------------------------------------------------------------------------  ------------------------------------------
+"for all ... values": measurements stored as uint8 / int16 / int32 (range     C02/typed-data (orc_crossnobis, case key
+  of the type filled) / float32 / int64 counts == definition on the same        `data`), C02/poisson-dimensions (orc_poisson)
+  values as float64; integer-typed precision matrices
+"for all ... values", "all precisions": data in units of 1e-26 .. 1e12,       C02/units (case keys `unit`, `noise_unit`;
+  precisions in the matching unit u^-2 (and u^2, 1); tolerance relative to       tolerance scaled by u*u*v, see _natural_scale),
+  the unit, so absolute thresholds in the library show                          poisson_cv rates x 1e-3 .. 1e9
+"all condition and fold label types" / "labelled by the dataset's condition   C02/containers (case keys `container`,
+  descriptor": descriptors as tuple / ndarray / object ndarray / int8           `desc_order`, `decoy_cv_desc`; bool folds),
+  ndarray, condition descriptor last in the dict among unrelated ones,          C02/poisson-dimensions
+  bool fold labels, default folds although a 'cv_desc' descriptor exists
+"number of conditions, folds, repetitions, channels": up to 16 conditions,    C02/sizes, C02/poisson-dimensions
+  20 folds (>= 10 fold labels with per-fold precisions), 64 channels; one
+  condition (no pair: one labelled condition, no failure)
+the value is a function of the arguments of THIS call: sequences A/NA, B/NB,  C02/call-sequence (orc_sequence)
+  A/NA, A/NB; same call twice agrees; a returned RDM keeps its values; the
+  dataset and the precision objects handed over are unchanged
+the same in a new interpreter with another PYTHONHASHSEED (string labels)      C02/fresh-interpreter (orc_fresh)
+Not applicable to C02: remainders, existing output files, competitor sets, file / dict item order other than the descriptor dict.
+
+Findings on the current tree: none open (F1, F2a-c of C02_findings.md are repaired in /repo; their input classes are kept in the
+domains C02/poisson-value and C02/default-folds-many-repetitions as regression guards).
 
 NOT covered by this tier
 * "for all datasets": everything is bounded (sizes in the `domain` strings); the all-reals identities are engine B's.
 * designs that are NOT fold-balanced (the property's hypothesis), TemporalDataset inputs, a `noise` dict, the
-  list-of-datasets branch of calc_rdm (C01 owns the option plumbing there), non-symmetric "precisions".
-* that the input dataset is left untouched (frame condition, engine A) and the rdm_descriptors ('noise',
-  'cv_descriptor') of the result.
-* NaN / infinite measurements; poisson_cv on negative data (log of a negative rate).
+  list-of-datasets branch of calc_rdm (C01 owns the option plumbing there), non-symmetric "precisions", a tuple of precisions
+  (the library documents a list), vector-valued (2-D) descriptors (not a label type of the property).
+* the rdm_descriptors ('noise', 'cv_descriptor') of the result.
+* NaN / infinite measurements; poisson_cv on negative data (log of a negative rate); float16 data; poisson_cv rates below 1e-3
+  of the prior (the definition itself cancels catastrophically there).
 """
 import itertools
 import warnings
@@ -82,10 +103,22 @@ def _py(v):
     return v.item() if isinstance(v, np.generic) else v
 
 
+def _label_pool(kind, n, pools, stem):
+    """label kinds beyond the fixed pools: '-big' kinds generate any number of labels whose first-appearance order is not the
+    sorted order (ints: 3, 40, 77, 13, ... = 37 i + 3 mod 101; strings: 'c0', 'c1', .., 'c10' < 'c2' in string order), 'bool' is (False, True)"""
+    if kind == 'int-big':
+        return [(37 * i + 3) % 101 for i in range(n)]
+    if kind == 'str-big':
+        return ['%s%d' % (stem, i) for i in range(n)]
+    if kind == 'bool':
+        return [False, True][:n]
+    return pools[kind][:n]
+
+
 def _design(C, M, R, ckind='int', fkind='int', order='fold-major', seed=0):
     """row label lists of the balanced design C conditions x M folds x R repetitions"""
-    cl = COND_LABELS[ckind][:C]
-    fl = list(range(M)) if fkind == 'int' else FOLD_LABELS[fkind][:M]
+    cl = _label_pool(ckind, C, COND_LABELS, 'c')
+    fl = list(range(M)) if fkind == 'int' else _label_pool(fkind, M, FOLD_LABELS, 'run')
     assert len(cl) == C and len(fl) == M, 'label pool too small'
     rows = [(cl[c], fl[m]) for m in range(M) for c in range(C) for _ in range(R)]
     if order == 'cond-major':
@@ -116,14 +149,30 @@ def _data(case, conds):
     ci = np.array([uc.index(c) for c in conds])
     P = case['P']
     kind = case.get('data', 'gauss')
-    if kind == 'gauss':     # condition specific pattern + condition specific non-zero channel mean + noise
+    if kind in ('gauss', 'float32'):    # condition specific pattern + condition specific non-zero channel mean + noise
         mu = 2.0 * rs.randn(len(uc), P) + (1.0 + 2.0 * np.arange(len(uc)))[:, None]
-        return mu[ci] + rs.randn(len(conds), P)
+        X = (mu[ci] + rs.randn(len(conds), P)) * case.get('unit', 1.0)      # 'unit': the same data in another physical unit
+        return X.astype(np.float32) if kind == 'float32' else X             # 'float32': stored in single precision
+    if kind in ('uint8', 'int16', 'int32'):
+        # integer-typed measurements that fill the range of their type: the sum of two rows does not fit the type, a difference
+        # of unsigned values would wrap, a fold mean is not an integer
+        hi = {'uint8': 255, 'int16': 32767, 'int32': 2 ** 31 - 1}[kind]
+        lo = 0 if kind == 'uint8' else -hi
+        span = (hi - lo) // 4
+        mu = rs.randint(lo + span, hi - span + 1, size=(len(uc), P))
+        return (mu[ci] + rs.randint(-span, span + 1, size=(len(conds), P))).astype(kind)
     if kind == 'int':       # small integers: exactly representable, every row distinct
         return rs.randint(-9, 10, size=(len(conds), P)).astype(float) + 0.25 * np.arange(len(conds))[:, None]
-    if kind == 'counts':    # spike counts incl. zeros
+    if kind == 'counts':    # spike counts incl. zeros ('unit': the same counts as a rate per other time unit)
         lam = 4.0 * np.exp(0.8 * rs.randn(len(uc), P))
-        return rs.poisson(lam[ci]).astype(float)
+        return rs.poisson(lam[ci]).astype(float) * case.get('unit', 1.0)
+    if kind in ('counts-uint8', 'counts-int32'):    # counts stored in a small / large integer type, close to its upper end
+        lam = 4.0 * np.exp(0.8 * rs.randn(len(uc), P))
+        k = rs.poisson(lam[ci])
+        top = max(1, int(k.max()))
+        if kind == 'counts-uint8':
+            return np.minimum(k * max(1, 255 // top), 255).astype(np.uint8)
+        return (k * ((2 ** 31 - 1) // top)).astype(np.int32)
     if kind == 'counts-int':    # the same counts STORED AS INTEGERS (the dataset keeps the integer dtype)
         lam = 4.0 * np.exp(0.8 * rs.randn(len(uc), P))
         return rs.poisson(lam[ci]).astype(np.int64)
@@ -142,6 +191,19 @@ def _noise(case, M):
     rs = np.random.RandomState(7919 + case['seed'])
     if mode == 'none':
         return None, None
+    nu = case.get('noise_unit')
+    if nu is not None:      # the same precisions in another unit (precision of data in unit u has unit u^-2)
+        arg, spec = _noise(dict(case, noise_unit=None), M)
+        if spec[0] == 'single':
+            return arg * nu, ('single', spec[1] * nu)
+        arg = arg * nu if isinstance(arg, np.ndarray) else [a * nu for a in arg]
+        return arg, ('per-fold', [N * nu for N in spec[1]])
+    if mode in ('identity-int', 'diag-int'):    # integer-typed precision matrices
+        N = np.eye(P, dtype=np.int64) if mode == 'identity-int' else np.diag(1 + rs.randint(0, 4, size=P)).astype(np.int32)
+        return N.copy(), ('single', N.astype(float))
+    if mode == 'list-diag-int':
+        Ns = [np.diag(1 + rs.randint(0, 4, size=P)).astype(np.int64) for _ in range(M)]
+        return [N.copy() for N in Ns], ('per-fold', [N.astype(float) for N in Ns])
     if mode == 'identity':
         return np.eye(P), ('single', np.eye(P))
     if mode == 'single':
@@ -160,13 +222,44 @@ def _noise(case, M):
     raise ValueError(mode)
 
 
-def _dataset(X, conds, folds=None):
+def _container(vals, kind):
+    """the same labels handed over as list / tuple / ndarray (native dtype, object dtype, smallest integer dtype)"""
+    vals = list(vals)
+    if kind == 'list':
+        return vals
+    if kind == 'tuple':
+        return tuple(vals)
+    if kind == 'ndarray':
+        return np.array(vals)
+    if kind == 'ndarray-object':
+        return np.array(vals, dtype=object)
+    if kind == 'ndarray-int8':     # integer labels in [-128, 127] only
+        return np.array(vals, dtype=np.int8) if all(isinstance(v, int) and not isinstance(v, bool) for v in vals) else np.array(vals)
+    raise ValueError(kind)
+
+
+def _dataset(X, conds, folds=None, case=None):
+    """case keys (all optional): 'container' -- how the descriptors are handed over; 'desc_order': 'fold-first' -- the fold
+    descriptor and two unrelated descriptors come BEFORE the condition descriptor in the obs_descriptors dict, one of them
+    constant (so it survives averaging) and one with the conditions' values in another order; 'decoy_cv_desc' -- the dataset
+    already carries a descriptor called 'cv_desc' (the name the library uses for its generated folds) with misleading content"""
     from rsatoolbox.data import Dataset
-    od = {'cond': list(conds)}
-    if folds is not None:
-        od['fold'] = list(folds)
+    case = case or {}
+    cont = case.get('container', 'list')
+    od = {}
+    if case.get('decoy_cv_desc'):
+        od['cv_desc'] = _container([0] * (len(conds) - 1) + [1], cont)
+    if case.get('desc_order') == 'fold-first':
+        if folds is not None:
+            od['fold'] = _container(folds, cont)
+        od['session'] = _container([7] * len(conds), cont)
+        od['zz_cond'] = _container(list(conds)[::-1], cont)
+    od['cond'] = _container(conds, cont)
+    if folds is not None and 'fold' not in od:
+        od['fold'] = _container(folds, cont)
     X = np.asarray(X)
-    return Dataset(np.array(X, dtype=X.dtype if X.dtype.kind in 'iu' else float), obs_descriptors=od, descriptors={'subj': 'S1'})
+    keep = X.dtype.kind in 'iu' or X.dtype == np.float32
+    return Dataset(np.array(X, dtype=X.dtype if keep else float), obs_descriptors=od, descriptors={'subj': 'S1'})
 
 
 # ------------------------------------------------------------------------------------------------ spec
@@ -265,8 +358,19 @@ def _observed(rdm, conds):
     return None, {(labs[i], labs[j]): float(mat[i, j]) for i in range(len(labs)) for j in range(len(labs))}
 
 
-def _compare(obs, uc, want, tol, what):
-    scale = max(1.0, float(np.max(np.abs(want))))
+def _natural_scale(case):
+    """what '1.0' of the unit-free problem is worth in the case's units: crossnobis is bilinear in the data and linear in the
+    precision, so data in unit u with precisions in unit v give values in unit u*u*v.  poisson_cv has no such homogeneity (the
+    prior is not scaled); there None = compare relative to the largest expected entry."""
+    u, v = case.get('unit', 1.0), case.get('noise_unit') or 1.0
+    if case.get('method', 'crossnobis') == 'poisson_cv':
+        return 1.0 if u == 1.0 else None
+    return u * u * v
+
+
+def _compare(obs, uc, want, tol, what, unit=1.0):
+    top = float(np.max(np.abs(want))) if np.size(want) else 0.0
+    scale = max(unit, top) if unit is not None else (top or 1.0)
     worst = None
     for i, a in enumerate(uc):
         for j, b in enumerate(uc):
@@ -280,7 +384,9 @@ def _compare(obs, uc, want, tol, what):
 
 
 def _obs_vs_spec(case, conds, folds, X, noise_arg, noise_spec, use_folds=True, tol=1e-9, what=None):
-    ds = _dataset(X, conds, folds if use_folds else None)
+    if np.asarray(X).dtype == np.float32:
+        tol = max(tol, 1e-5)    # single-precision data: fold means may be formed in single precision
+    ds = _dataset(X, conds, folds if use_folds else None, case)
     rdm = _call(case, ds, noise_arg, use_folds)
     err, obs = _observed(rdm, conds)
     if err:
@@ -292,7 +398,7 @@ def _obs_vs_spec(case, conds, folds, X, noise_arg, noise_spec, use_folds=True, t
                      bool(case.get('remove_mean', False)), poisson)
     what = what or ('mean over ordered pairs of distinct folds (%d folds, noise=%s, remove_mean=%s)'
                     % (len(set(folds)), case.get('noise', 'none'), bool(case.get('remove_mean', False))))
-    return _compare(obs, uc, want, tol, what)
+    return _compare(obs, uc, want, tol, what, _natural_scale(case))
 
 
 # ------------------------------------------------------------------------------------------------ oracles
@@ -555,6 +661,144 @@ def orc_poisson_structure(case):
     return None
 
 
+def _snapshot(ds, noise_arg):
+    od = {k: (np.array(v).tolist(), type(v).__name__) for k, v in ds.obs_descriptors.items()}
+    if noise_arg is None:
+        ns = None
+    elif isinstance(noise_arg, np.ndarray):
+        ns = noise_arg.copy()
+    else:
+        ns = [np.array(n).copy() for n in noise_arg]
+    return ds.measurements.copy(), ds.measurements.dtype, od, ns
+
+
+def _changed(ds, noise_arg, snap):
+    X0, dt0, od0, ns0 = snap
+    if ds.measurements.dtype != dt0 or ds.measurements.shape != X0.shape or not np.array_equal(ds.measurements, X0):
+        return 'the measurements of the dataset handed over were changed by the call'
+    if list(ds.obs_descriptors) != list(od0):
+        return f'the obs_descriptors of the dataset handed over were changed by the call: keys {list(od0)} -> {list(ds.obs_descriptors)}'
+    for k, (v0, t0) in od0.items():
+        v = ds.obs_descriptors[k]
+        if np.array(v).tolist() != v0 or type(v).__name__ != t0:
+            return f'obs_descriptor {k!r} of the dataset handed over was changed by the call: {t0} {v0} -> {type(v).__name__} {np.array(v).tolist()}'
+    if ns0 is not None:
+        now = [noise_arg] if isinstance(noise_arg, np.ndarray) else list(noise_arg)
+        old = [ns0] if isinstance(ns0, np.ndarray) else ns0
+        if len(now) != len(old) or any(not np.array_equal(np.asarray(a), b) for a, b in zip(now, old)):
+            return 'the precision matrices handed over were changed by the call'
+    return None
+
+
+@oracle('C02/call-sequence')
+def orc_sequence(case):
+    """the value is a function of the dataset and precisions handed over in THIS call.  Calls A/NA, B/NB, A/NA on two datasets
+    with the same shape and the same labels but different values and different precisions (a result remembered per shape /
+    label set would be served for the wrong data), the second A/NA with the very same objects as the first, then A with the
+    precisions of B (same data, other precisions): every result == spec of its own arguments; the two results for A/NA
+    agree; the RDM returned by the first call still holds its values after the later calls; the datasets and precision
+    objects are unchanged by the calls"""
+    conds = case['conds']
+    use_folds = 'folds' in case
+    folds = case['folds'] if use_folds else _occurrence_folds(conds)
+    g = _check_balanced(conds, folds)
+    if g:
+        return g
+    M = len(set(folds))
+    poisson = None
+    if case.get('method', 'crossnobis') == 'poisson_cv':
+        case = dict(case, data=case.get('data', 'counts'), noise='none')
+        poisson = (case.get('prior_lambda', 1), case.get('prior_weight', 0.1))
+    caseB = dict(case, seed=case['seed'] + 500)
+    uc = sorted(set(conds))
+    rm = bool(case.get('remove_mean', False))
+    args = []
+    for c in (case, caseB):
+        X = _data(c, conds)
+        noise_arg, noise_spec = _noise(c, M)
+        ds = _dataset(X, conds, folds if use_folds else None, c)
+        args.append(dict(ds=ds, X=np.asarray(X, float), noise_arg=noise_arg, noise_spec=noise_spec, snap=_snapshot(ds, noise_arg)))
+    # (dataset, precisions) of the calls: A/NA, B/NB, A/NA again, and -- if there are precisions -- A with the precisions of B
+    steps = [(0, 0), (1, 1), (0, 0)] + ([(0, 1)] if args[0]['noise_arg'] is not None else [])
+    wants = {}
+    for (i, j) in set(steps):
+        wants[i, j] = _spec(args[i]['X'], list(conds), list(folds), args[j]['noise_spec'], rm, poisson)[1]
+    if np.allclose(wants[0, 0], wants[1, 1]) or ((0, 1) in wants and np.allclose(wants[0, 0], wants[0, 1])):
+        return 'GENERATOR ERROR: two calls of the sequence have the same expected RDM'
+    held, first = None, None
+    for step, (i, j) in enumerate(steps):
+        ds, noise_arg = args[i]['ds'], args[j]['noise_arg']
+        name = 'call %d of the sequence A/NA, B/NB, A/NA, A/NB (dataset %s with precisions %s; A and B have the same shape and labels)' % (
+            step + 1, 'AB'[i], 'none' if noise_arg is None else 'N' + 'AB'[j])
+        rdm = _call(case, ds, noise_arg, use_folds)
+        err, obs = _observed(rdm, conds)
+        if err:
+            return f'{name}: {err}'
+        res = _compare(obs, uc, wants[i, j], 1e-9, name, _natural_scale(case))
+        if res:
+            return res
+        res = _changed(ds, args[i]['noise_arg'], args[i]['snap']) or _changed(args[j]['ds'], noise_arg, args[j]['snap'])
+        if res:
+            return f'{name}: {res}'
+        if step == 0:
+            held, first = rdm, obs
+        else:
+            err, again = _observed(held, conds)
+            if err:
+                return f'the RDM returned by call 1 after call {step + 1}: {err}'
+            if again != first:
+                k = [k for k in first if again[k] != first[k]][0]
+                return (f'the RDM returned by call 1 changed while call {step + 1} ran: conditions {k} {first[k]!r} -> {again[k]!r}')
+        if step == 2:
+            scale = max(abs(v) for v in first.values()) or 1.0
+            for k in first:
+                if abs(obs[k] - first[k]) > 1e-12 * scale:
+                    return f'the same call on the same objects gave {first[k]!r} first and {obs[k]!r} then (conditions {k})'
+    return None
+
+
+_FRESH_CHILD = (
+    'import sys, json, warnings\n'
+    'warnings.simplefilter("ignore")\n'
+    'from vf.rt.harness import ORACLES\n'
+    'import contracts.C02_c\n'
+    'out = []\n'
+    'for name, case in json.load(sys.stdin):\n'
+    '    try:\n'
+    '        out.append(ORACLES[name](case))\n'
+    '    except Exception as e:\n'
+    '        out.append("exception %s: %s" % (type(e).__name__, e))\n'
+    'print("C02-FRESH-RESULT" + json.dumps([sys.flags.hash_randomization, hash("run_a") % 1000, out]))\n')
+
+
+@oracle('C02/fresh-interpreter')
+def orc_fresh(case):
+    """the oracles listed in case['jobs'] hold as well in a NEW interpreter started with PYTHONHASHSEED=case['hashseed'] (string
+    labels then hash differently, so anything that depends on the iteration order of a set / dict of labels shows)"""
+    import json
+    import os
+    import subprocess
+    import sys
+    import rsatoolbox
+    root = os.path.dirname(os.path.dirname(os.path.abspath(__file__)))
+    src = os.path.dirname(os.path.dirname(os.path.abspath(rsatoolbox.__file__)))
+    env = dict(os.environ, PYTHONHASHSEED=str(case['hashseed']), PYTHONPATH=os.pathsep.join([src, root]),
+               PYTHONDONTWRITEBYTECODE='1', MPLBACKEND='Agg')
+    pr = subprocess.run([sys.executable, '-c', _FRESH_CHILD], input=json.dumps(case['jobs']), capture_output=True, text=True,
+                        env=env, timeout=600, cwd=root)
+    lines = [l for l in pr.stdout.splitlines() if l.startswith('C02-FRESH-RESULT')]
+    if pr.returncode != 0 or not lines:
+        return f'the new interpreter failed (exit {pr.returncode}): {pr.stderr.strip()[-400:]}'
+    _, _, results = json.loads(lines[-1][len('C02-FRESH-RESULT'):])
+    if len(results) != len(case['jobs']):
+        return 'GENERATOR ERROR: the new interpreter answered %d of %d jobs' % (len(results), len(case['jobs']))
+    for (name, job), res in zip(case['jobs'], results):
+        if res is not None:
+            return f"under PYTHONHASHSEED={case['hashseed']}: {name} on {json.dumps(job)[:300]}: {res}"
+    return None
+
+
+
 # ------------------------------------------------------------------------------------------------ domains
 def _balanced_sequences(n_labels, reps):
     """all sequences over labels 0..n_labels-1 in which every label occurs exactly `reps` times"""
@@ -577,7 +821,8 @@ def _balanced_sequences(n_labels, reps):
 
 def _noise_class(mode):
     return {'none': 'identity', 'identity': 'identity', 'single': 'single-precision', 'diag': 'single-precision',
-            'list': 'per-fold-precision', 'list-equal': 'per-fold-precision', 'array3d': 'per-fold-precision'}[mode]
+            'list': 'per-fold-precision', 'list-equal': 'per-fold-precision', 'array3d': 'per-fold-precision',
+            'identity-int': 'identity', 'diag-int': 'single-precision', 'list-diag-int': 'per-fold-precision'}[mode]
 
 
 def tier_c(run, thorough):
@@ -610,6 +855,8 @@ def tier_c(run, thorough):
                                          nontrivial=not (rm and P == 1), function='calc_rdm_crossnobis')
                                 if k % 4 == 0 and not rm:
                                     # integer-typed measurements (spike counts): fold means are not integers
+                                    # NOTE (sweep): k is odd whenever rm is False, so this registration is never reached;
+                                    # integer-typed measurements are covered by domain 8 (C02/typed-data, 'counts-int' etc.)
                                     bd.check(orc_crossnobis, dict(case, data='counts-int'),
                                              'crossnobis-' + _noise_class(mode) + ',integer-typed-data',
                                              function='calc_rdm_crossnobis')
@@ -787,6 +1034,227 @@ def tier_c(run, thorough):
                         case = dict(kind='orthogonal', method='poisson_cv', C=C, M=M, R=R, q=1 + k % 2, base=base, seed=k,
                                     order=orders[k % 4], fkind=fkinds[k % 4], via='calc_rdm' if k % 2 else 'direct')
                         bd.check(orc_contributions, case, 'poisson_cv-orthogonal-folds', function='calc_rdm_poisson_cv')
+    bd.done()
+    bds.append(bd)
+
+    # ================================================================================================================
+    # dimension sweeps: the same clauses as above on inputs that vary along dimensions the domains 1-7 keep fixed
+    # ================================================================================================================
+    OB_X = 'C02/calc_rdm_crossnobis/oracle/mean-of-between-fold-products'
+    OB_P = 'C02/calc_rdm_poisson_cv/oracle/mean-of-between-fold-products'
+
+    # ---- 8. typed data: measurements / precisions that are not float64 -----------------------------------------------
+    designs = [(2, 2, 1), (3, 3, 2), (4, 2, 3), (3, 4, 1)] if thorough else [(2, 2, 1), (3, 3, 2), (4, 2, 3)]
+    kinds = ['uint8', 'int16', 'int32', 'float32', 'counts-int']
+    tmodes = ['none', 'single', 'list', 'identity-int', 'diag-int', 'list-diag-int']
+    bd = Bounded(run, 'C02/typed-data', OB_X,
+                 'measurements stored as uint8 / int16 / int32 (values filling the range of the type: sums of two rows do not fit, '
+                 'unsigned differences would wrap), float32 (tolerance 1e-5) and int64 counts, expected value = the definition on the '
+                 'same values as float64; precisions none / float SPD / float list per fold / integer-typed identity, diagonal and '
+                 'per-fold diagonal; remove_mean off/on; designs (conditions, folds, repetitions) in %s, channels in %s, %d seeds; '
+                 'gaussian float64 data with integer-typed precisions as well'
+                 % (designs, (1, 2, 3) if thorough else (1, 3), 2 if thorough else 1), function='calc_rdm_crossnobis')
+    k = 0
+    for seed in range(2 if thorough else 1):
+        for (C, M, R) in designs:
+            for P in ((1, 2, 3) if thorough else (1, 3)):
+                for mode in tmodes:
+                    for rm in (False, True):
+                        for kind in kinds + (['gauss'] if mode.endswith('-int') else []):
+                            k += 1
+                            conds, folds = _design(C, M, R, ckinds[k % 5], fkinds[(k // 5) % 4], orders[(k // 3) % 4], seed=k)
+                            case = dict(seed=seed * 1000 + k, conds=conds, folds=folds, P=P, noise=mode, remove_mean=rm, data=kind,
+                                        via='calc_rdm' if k % 2 else 'calc_rdm_crossnobis')
+                            bd.check(orc_crossnobis, case,
+                                     'crossnobis-%s%s,%s-data%s' % (_noise_class(mode), '+remove_mean' if rm else '', kind,
+                                                                    ',integer-typed-precision' if mode.endswith('-int') else ''),
+                                     nontrivial=not (rm and P == 1), function='calc_rdm_crossnobis')
+    bd.done()
+    bds.append(bd)
+
+    # ---- 9. units: the same data / precisions expressed in extreme but legitimate units ------------------------------
+    units = (1e-26, 1e-13, 1e-6, 1e6, 1e12) if thorough else (1e-26, 1e-13, 1e6, 1e12)
+    bd = Bounded(run, 'C02/units', OB_X,
+                 'seeded gaussian data multiplied by u in %s; precisions none / one SPD / diagonal / list per fold / 3-d array, as they '
+                 'are and multiplied by u^-2 (the unit of a precision of such data) and by u^2; remove_mean off/on; designs %s, '
+                 'channels 1 and 3; tolerance 1e-9 relative to u*u*v (what 1 of the unit-free problem is worth), so a value the '
+                 'definition gives as 1e-26 must be returned as such' % (units, designs), function='calc_rdm_crossnobis')
+    k = 0
+    for u in units:
+        for (C, M, R) in designs:
+            for mode in ('none', 'single', 'diag', 'list', 'array3d'):
+                for v in ((None,) if mode == 'none' else (None, u ** -2, u ** 2)):
+                    if v is not None and not 1e-60 < u * u * v < 1e60:
+                        continue
+                    for rm in (False, True):
+                        k += 1
+                        P = 1 if k % 4 == 0 else 3
+                        conds, folds = _design(C, M, R, ckinds[k % 5], fkinds[(k // 5) % 4], orders[(k // 3) % 4], seed=k)
+                        case = dict(seed=k, conds=conds, folds=folds, P=P, noise=mode, remove_mean=rm, unit=u,
+                                    via='calc_rdm' if k % 2 else 'calc_rdm_crossnobis')
+                        if v is not None:
+                            case['noise_unit'] = v
+                        bd.check(orc_crossnobis, case,
+                                 'crossnobis-%s%s,%s-units' % (_noise_class(mode), '+remove_mean' if rm else '', 'tiny' if u < 1 else 'huge'),
+                                 nontrivial=not (rm and P == 1), function='calc_rdm_crossnobis')
+    bd.done()
+    bds.append(bd)
+
+    # ---- 10. containers and the layout of the descriptor dict --------------------------------------------------------
+    containers = ['tuple', 'ndarray', 'ndarray-object', 'ndarray-int8']
+    bd = Bounded(run, 'C02/containers', OB_X,
+                 'condition and fold descriptors handed over as tuple / ndarray / object ndarray / int8 ndarray (numpy scalars as '
+                 'labels); fold descriptor and two unrelated descriptors (one constant, one with the condition labels reversed) placed '
+                 'before the condition descriptor in the dict; bool fold labels (2 folds); default folds on a dataset that already '
+                 'carries a descriptor named cv_desc with other content; precisions none / list per fold; designs %s, 2 channels; '
+                 'all label kinds' % (designs,), function='calc_rdm_crossnobis')
+    k = 0
+    for (C, M, R) in designs:
+        for cont in containers + ['list']:
+            for dorder in (None, 'fold-first'):
+                if cont == 'list' and dorder is None:
+                    continue    # that is what the domains 1-7 use
+                for mode in ('none', 'list'):
+                    for rm in ((False, True) if thorough else (False,)):
+                        k += 1
+                        ck, fk = ckinds[k % 5], (fkinds + ['bool'])[k % 5]
+                        if cont == 'ndarray-int8':
+                            ck, fk = ('int', 'int-unordered')[k % 2], ('int-unordered', 'int')[(k // 2) % 2]
+                        if fk == 'bool' and M != 2:
+                            fk = 'str'
+                        conds, folds = _design(C, M, R, ck, fk, orders[(k // 2) % 4], seed=k)
+                        case = dict(seed=k, conds=conds, folds=folds, P=2, noise=mode, remove_mean=rm, container=cont,
+                                    via='calc_rdm' if k % 2 else 'calc_rdm_crossnobis')
+                        if dorder:
+                            case['desc_order'] = dorder
+                        cls = 'crossnobis-%s,%s-descriptors%s%s' % (_noise_class(mode), cont, ',condition-descriptor-last' if dorder else '',
+                                                                    ',bool-fold-labels' if fk == 'bool' else '')
+                        bd.check(orc_crossnobis, case, cls, function='calc_rdm_crossnobis')
+                        # default folds: the same conditions, no fold descriptor, a decoy 'cv_desc' on every second case
+                        dcase = dict(seed=k, conds=conds, P=2, noise=mode, container=cont, via=case['via'])
+                        if dorder:
+                            dcase['desc_order'] = dorder
+                        if k % 2:
+                            dcase['decoy_cv_desc'] = True
+                        bd.check(orc_default_folds, dcase, 'default-folds,%s-descriptors%s%s'
+                                 % (cont, ',condition-descriptor-last' if dorder else '', ',existing-cv_desc-descriptor' if k % 2 else ''),
+                                 function='calc_rdm_crossnobis')
+    bd.done()
+    bds.append(bd)
+
+    # ---- 11. sizes beyond the other domains, single-element dimensions -----------------------------------------------
+    big = [(7, 9, 1, 17), (8, 3, 3, 2), (2, 11, 2, 1), (9, 2, 1, 40), (1, 3, 2, 3), (1, 2, 1, 1), (5, 12, 1, 3)]
+    if thorough:
+        big += [(12, 12, 2, 30), (16, 2, 1, 1), (3, 20, 1, 2), (1, 11, 1, 2), (10, 5, 4, 64)]
+    bd = Bounded(run, 'C02/sizes', OB_X,
+                 'designs (conditions, folds, repetitions, channels) in %s: up to %d conditions / %d folds (per-fold precisions: >= 10 '
+                 'fold labels, whose numeric and string orders differ) / %d channels, and a single condition (no pair: one condition, '
+                 'labelled, no failure); precisions none / one SPD / list per fold; remove_mean off/on; generated int and str labels '
+                 'in non-sorted order; explicit and default folds'
+                 % (big, max(b[0] for b in big), max(b[1] for b in big), max(b[3] for b in big)), function='calc_rdm_crossnobis')
+    k = 0
+    for (C, M, R, P) in big:
+        for mode in ('none', 'single', 'list'):
+            for rm in (False, True):
+                k += 1
+                conds, folds = _design(C, M, R, ('int-big', 'str-big')[k % 2], ('int-big', 'str-big', 'int')[k % 3],
+                                       orders[k % 4], seed=k)
+                cls = 'single-condition' if C == 1 else 'crossnobis-%s%s,large-design' % (_noise_class(mode), '+remove_mean' if rm else '')
+                bd.check(orc_crossnobis, dict(seed=k, conds=conds, folds=folds, P=P, noise=mode, remove_mean=rm,
+                                              via='calc_rdm' if k % 2 else 'calc_rdm_crossnobis'), cls, function='calc_rdm_crossnobis')
+                if not rm:
+                    bd.check(orc_default_folds, dict(seed=k, conds=conds, P=P, noise=mode, via='calc_rdm' if k % 2 else 'direct'),
+                             'single-condition' if C == 1 else 'default-folds,large-design', function='calc_rdm_crossnobis')
+    bd.done()
+    bds.append(bd)
+
+    # ---- 12. call sequences ------------------------------------------------------------------------------------------
+    bd = Bounded(run, 'C02/call-sequence', 'C02/cross-validated-rdm/oracle/function-of-the-arguments-of-this-call',
+                 'sequences A/NA, B/NB, A/NA, A/NB: two datasets of the same shape with the same labels, other values, other precisions; the '
+                 'second A/NA with the same objects as the first; every result == definition on its own arguments, results for A agree, the first '
+                 'RDM keeps its values, dataset A (measurements, dtype, descriptor keys / values / container types) and the precision '
+                 'objects are unchanged; crossnobis (none / one SPD / list / 3-d array, remove_mean off/on, float and uint8 data) and '
+                 'poisson_cv; explicit and default folds (also with an existing cv_desc descriptor); list / tuple / ndarray '
+                 'descriptors; designs %s, channels 1..3 (2..3 with remove_mean)' % (designs,), function='calc_rdm_crossnobis')
+    k = 0
+    for (C, M, R) in designs:
+        for method in ('crossnobis', 'poisson_cv'):
+            for mode in (('none', 'single', 'list', 'array3d') if method == 'crossnobis' else ('none',)):
+                for default in (False, True):
+                    for rm in ((False, True) if method == 'crossnobis' else (False,)):
+                        k += 1
+                        conds, folds = _design(C, M, R, ckinds[k % 5], fkinds[(k // 5) % 4], orders[(k // 2) % 4], seed=k)
+                        case = dict(seed=k, conds=conds, P=(2 + k % 2) if rm else (1 + k % 3), noise=mode, remove_mean=rm, method=method,
+                                    container=('list', 'ndarray', 'tuple')[k % 3], via='calc_rdm' if (k // 2) % 2 else 'direct')
+                        if not default:
+                            case['folds'] = folds
+                        elif k % 2:
+                            case['decoy_cv_desc'] = True
+                        if k % 4 == 0:
+                            case['desc_order'] = 'fold-first'
+                        if k % 5 == 0 and method == 'crossnobis':
+                            case['data'] = 'uint8'
+                        bd.check(orc_sequence, case, '%s-%s,call-sequence%s' % (method, _noise_class(mode), ',default-folds' if default else ''),
+                                 function='calc_rdm_crossnobis' if method == 'crossnobis' else 'calc_rdm_poisson_cv')
+    bd.done()
+    bds.append(bd)
+
+    # ---- 13. poisson_cv along the same dimensions --------------------------------------------------------------------
+    punits = (1e-3, 1e3, 1e6, 1e9)
+    bd = Bounded(run, 'C02/poisson-dimensions', OB_P,
+                 'poisson_cv value == definition for: counts stored as uint8 / int32 (upper end of the type); rates in other units '
+                 '(counts x u, u in %s, >= 3 conditions, tolerance 1e-9 relative to the largest expected entry); tuple / ndarray / '
+                 'object ndarray descriptors, condition descriptor last in the dict, bool fold labels; designs up to 7 conditions x 11 '
+                 'folds x 17 channels; a single condition; prior (1, 0.1) and (0.5, 1); designs %s' % (punits, designs),
+                 function='calc_rdm_poisson_cv')
+    k = 0
+    for (C, M, R) in designs:
+        for (lam, w) in ((1, 0.1), (0.5, 1.0)):
+            for P in (1, 3):
+                k += 1
+                conds, folds = _design(C, M, R, ckinds[k % 5], fkinds[(k // 5) % 4], orders[(k // 2) % 4], seed=k)
+                base = dict(seed=k, conds=conds, folds=folds, P=P, prior_lambda=lam, prior_weight=w, via='calc_rdm' if k % 2 else 'direct')
+                for kind in ('counts-uint8', 'counts-int32'):
+                    bd.check(orc_poisson, dict(base, data=kind), 'poisson_cv,%s-data' % kind[7:], function='calc_rdm_poisson_cv')
+                if C >= 3:
+                    for u in punits:
+                        bd.check(orc_poisson, dict(base, unit=u), 'poisson_cv,%s-units' % ('small' if u < 1 else 'huge'),
+                                 function='calc_rdm_poisson_cv')
+                cont = (containers[:3] + ['list'])[k % 4]
+                fk = 'bool' if (M == 2 and k % 2) else fkinds[k % 4]
+                c2, f2 = _design(C, M, R, ckinds[k % 5], fk, orders[k % 4], seed=k)
+                bd.check(orc_poisson, dict(base, conds=c2, folds=f2, container=cont, desc_order='fold-first'),
+                         'poisson_cv,%s-descriptors,condition-descriptor-last%s' % (cont, ',bool-fold-labels' if fk == 'bool' else ''),
+                         function='calc_rdm_poisson_cv')
+    for k, (C, M, R, P) in enumerate([(7, 9, 1, 17), (2, 11, 2, 1), (1, 3, 2, 3), (1, 2, 1, 1)] + ([(12, 12, 2, 30)] if thorough else [])):
+        conds, folds = _design(C, M, R, ('int-big', 'str-big')[k % 2], ('str-big', 'int-big')[k % 2], orders[k % 4], seed=k)
+        bd.check(orc_poisson, dict(seed=k, conds=conds, folds=folds, P=P, via='calc_rdm' if k % 2 else 'direct'),
+                 'single-condition' if C == 1 else 'poisson_cv,large-design', function='calc_rdm_poisson_cv')
+    bd.done()
+    bds.append(bd)
+
+    # ---- 14. a new interpreter with another hash seed ----------------------------------------------------------------
+    hashseeds = (1, 987654, 31337, 4242) if thorough else (1, 987654)
+    jobs = []
+    k = 0
+    for (C, M, R) in [(3, 3, 1), (4, 2, 2), (2, 4, 1)]:
+        for ck, fk in (('str', 'str'), ('str-long', 'str'), ('str-big', 'str-big'), ('str', 'float')):
+            k += 1
+            conds, folds = _design(C, M, R, ck, fk, orders[k % 4], seed=k)
+            jobs.append(['C02/crossnobis-value', dict(seed=k, conds=conds, folds=folds, P=2, noise=('list', 'none', 'single')[k % 3],
+                                                      remove_mean=bool(k % 2), via='calc_rdm')])
+            jobs.append(['C02/default-folds', dict(seed=k, conds=conds, P=2, noise=('none', 'list')[k % 2], via='direct')])
+            if k % 2:
+                jobs.append(['C02/poisson-value', dict(seed=k, conds=conds, folds=folds, P=2, via='calc_rdm')])
+            if k % 4 == 0:
+                jobs.append(['C02/invariances', dict(seed=k, conds=conds, folds=_design(C, M, R, ck, 'int', orders[k % 4], seed=k)[1], P=2,
+                                                     noise='list', remove_mean=False, relabel='str', via='calc_rdm')])
+    bd = Bounded(run, 'C02/fresh-interpreter', 'C02/cross-validated-rdm/oracle/same-result-in-a-new-interpreter',
+                 '%d value / default-fold / poisson_cv / invariance cases with string condition and string fold labels, re-run in new '
+                 'interpreters started with PYTHONHASHSEED in %s (this process runs under the seed ./check sets)'
+                 % (len(jobs), hashseeds), function='calc_rdm_crossnobis')
+    for hs in hashseeds:
+        bd.check(orc_fresh, dict(hashseed=hs, jobs=jobs), 'string-labels,other-hash-seed', function='calc_rdm_crossnobis')
     bd.done()
     bds.append(bd)
     return bds
